@@ -56,7 +56,12 @@ def extract(body, start, stops, atoms, events=None, outcome_local=None, max_path
                 return ("const", bool(c["int"]))
             return ("unk", None)
         p = op_place(op)
-        if p is None or p["p"]:
+        if p is None:
+            return ("unk", None)
+        if p["p"]:
+            # `t.k` where t = (a, b, ..) was built on this path: the k-th component's value
+            if len(p["p"]) == 1 and isinstance(p["p"][0], dict) and "f" in p["p"][0] and "downcast" not in p["p"][0]:
+                return env.get((p["l"], p["p"][0]["f"]), ("unk", None))
             return ("unk", None)
         return env.get(p["l"], ("unk", None))
 
@@ -91,9 +96,15 @@ def extract(body, start, stops, atoms, events=None, outcome_local=None, max_path
                     env[d] = ("atom", v[1], not v[2])
                 else:
                     env[d] = ("unk", None)
+            elif rv["k"] == "agg" and rv.get("agg") == "tuple":
+                env[d] = ("unk", None)
+                for i, o in enumerate(rv["ops"]):
+                    env[(d, i)] = val_of(env, o)
             elif rv["k"] == "discr":
                 pl = rv["place"]
                 src = env.get(pl["l"]) if not pl["p"] else None
+                if pl["p"] and len(pl["p"]) == 1 and isinstance(pl["p"][0], dict) and "f" in pl["p"][0] and "downcast" not in pl["p"][0]:
+                    src = env.get((pl["l"], pl["p"][0]["f"]))
                 if src and src[0] == "someatom":
                     env[d] = ("discr", src[1], src[2] if len(src) > 2 else True)
                 else:
